@@ -3138,8 +3138,12 @@ class Query(
             .with_only_columns(1)
         )
 
+        # when the query selects from a subquery of itself (union() etc.,
+        # _from_selectable()), the entities are adapted to that subquery,
+        # which is already the explicit FROM; adding the plain entity would
+        # produce a cartesian product with its table.
         ezero = self._entity_from_pre_ent_zero()
-        if ezero is not None:
+        if ezero is not None and not self._compile_options._set_base_alias:
             inner = inner.select_from(ezero)
 
         return sql.exists(inner)
